@@ -277,7 +277,7 @@ func values(rng *rand.Rand) []string {
 }
 
 var cookieNames = []string{"sid", "theme", "lang", "Token", "token"}
-var cookieVals = []string{"1", "dark", "en", "abc123", "Z"}
+var cookieVals = []string{"1", "dark", "en", "abc123", "Z", "dG9rZW4/Zm9vYg==", "a=b&c=d", "x+y:z%41"} // cookie values travel as they are (base64 padding, '=', '&', '+', '%')
 var uaPool = []string{"", "", "AgentA/1.0", "agent-b (test)"}
 
 func genCookies(rng *rand.Rand) [][2]string {
@@ -828,7 +828,8 @@ func work(out, tier string, seed int64) {
 		CancelMs int
 	}
 	var cans []can
-	for _, k := range []string{"cancel", "deadline", "param-timeout", "cancel-mid-body", "deadline-mid-body"} {
+	// "-direct": Driver.Open called directly with the context (DOCUMENT() always adds a deadline of its own)
+	for _, k := range []string{"cancel", "deadline", "param-timeout", "cancel-mid-body", "deadline-mid-body", "cancel-direct", "deadline-direct"} {
 		for _, d := range []int{30, 150, 500, 4000} {
 			cans = append(cans, can{k, d})
 		}
@@ -853,7 +854,7 @@ func work(out, tier string, seed int64) {
 			ctx := context.Background()
 			p := map[string]interface{}{}
 			var cancel context.CancelFunc = func() {}
-			switch strings.TrimSuffix(c.Kind, "-mid-body") {
+			switch strings.TrimSuffix(strings.TrimSuffix(c.Kind, "-mid-body"), "-direct") {
 			case "cancel":
 				ctx, cancel = context.WithCancel(ctx)
 				go func(cf context.CancelFunc) {
@@ -866,7 +867,16 @@ func work(out, tier string, seed int64) {
 				p["timeout"] = c.CancelMs
 			}
 			t0 := time.Now()
-			_, rerr := runFQL(progDoc, drv, ctx, url, p)
+			var rerr error
+			if strings.HasSuffix(c.Kind, "-direct") {
+				var pg drivers.HTMLPage
+				pg, rerr = drv.Open(ctx, drivers.Params{URL: url})
+				if pg != nil {
+					pg.Close()
+				}
+			} else {
+				_, rerr = runFQL(progDoc, drv, ctx, url, p)
+			}
 			el := time.Since(t0)
 			cancel()
 			elapsed[i] = el.Milliseconds()
